@@ -154,7 +154,8 @@ def check(run: Run) -> None:
     with run.obligation("C03.d", "K1+K4", "node evaluate_impl returns first iff not started; user evaluate is called iff started and "
                         "(validity delegated or no input or ready); no other call site of the user evaluate callback exists"):
         fa = R.fn(run, NODE, "evaluate_impl")
-        R.k1(run, "C03.d", fa, c02.node_eval_roles(), c02.node_eval_spec, role_calls=c02.NODE_EVAL_CALLS, may_throw_calls=("EVAL",),
+        spec_p, calls_p, feas_p = c02.node_eval_projection({"eval", "rearm"})  # a wrong re-arm runs user code at a cancelled time or never again
+        R.k1(run, "C03.d", fa, c02.node_eval_roles(), spec_p, role_calls=calls_p, feasible=feas_p, may_throw_calls=("EVAL",),
              what="node evaluate gate")
         n = 0
         fi = t.file(NODE)
